@@ -549,7 +549,9 @@ def _model_run(ops):
                 fns[sf][3].append([1, 0])
                 sb = len(fns[sf][3]) - 1
                 nid += 1
-        elif op in ("nop",):
+        elif op == "ver":
+            res = None
+        elif op in ("nop", "ins:fb:0", "ins:fe:0", "ins:begin", "ins:end"):
             if sb is None:
                 res = "Err(DetachedInstruction"
             else:
@@ -631,6 +633,12 @@ def witness(failure, ctx):
     for n in (1, 2, 3, 4):
         for s in itertools.product(["bf", "ef", "bb", "nop", "ret", "param", "pop", "sf:0", "sf:1", "sb:0", "sb:1", "var", "line"], repeat=n):
             scripts.append(list(s))
+    # insertion at every in-range point of an empty / one-instruction block; version set before, between and after id allocations
+    for n in (1, 2, 3):
+        for s in itertools.product(["bf", "bb", "nop", "ret", "pop", "ins:fb:0", "ins:fe:0", "ins:begin", "ver", "tvoid", "id"], repeat=n):
+            if any(o.startswith("ins:") or o == "ver" for o in s):
+                scripts.append(list(s))
+                scripts.append(["bf", "bb"] + list(s))
     scripts += [["bf", "bb", "ef", "bf", "nop"], ["bf", "bb", "ret", "bb", "ret", "ef", "bf", "sf:0", "sb:1", "sf:1", "nop"],
                 ["bf", "bb", "nop", "nop", "pop", "ret", "ef", "bf", "bb", "ret", "ef", "sf:0", "sb:0", "nop", "sf:1", "sb:0", "pop", "pop"],
                 ["tvoid", "tvoid", "id", "bf", "param", "bb", "var", "ret", "ef", "tvoid"]]
